@@ -18,13 +18,16 @@ THEOREMS = [P + t for t in (
     "views_exact_services", "views_partition_nodes", "id_guard_any_class", "wf_addGNode", "wf_setEdge", "wf_dropNode",
     "wf_mapNodes", "pw_addEdge", "pw_deleteNode", "pw_updateProps", "pw_mapNodes",
     "inv_empty", "invS_iff", "links_only_interfaces", "inv_op", "invD_op", "inv_history_partial", "invD_history_partial",
-    "inv_history_from_empty", "invD_history_from_empty", "inv_setProps", "inv_unsetProp", "inv_addNode",
+    "inv_history_from_empty", "invD_history_from_empty", "invN_op", "invN_history_partial", "invN_history_from_empty",
+    "inv_setProps", "inv_unsetProp", "inv_addNode",
     "rename_names_counterexample", "nsAddInterface_names_counterexample", "nsAddInterface_sp_counterexample",
     "addLink_sp_counterexample", "connect_names_counterexample")] + ["FimVerif.Topo." + t for t in (
-    "invS_ext", "invD_ext", "invD_dropNode", "invS_mapNodes", "namesOk_mapNodes", "invS_addNode", "invS_nsAddInterface", "invS_addLink",
+    "invS_grow", "invD_grow", "invD_dropNode", "invS_mapNodes", "namesOk_mapNodes", "invS_addNode", "invS_nsAddInterface", "invS_addLink",
     "invS_connect", "invS_addComponent", "invS_addStorage", "invS_addService", "invS_nodeAddService", "invD_addService",
     "invD_nodeAddService", "invD_addComponent", "svcLoop_ok", "svcLoop_invD", "catalog_ok", "invS_addFacility", "invS_addSwitch",
-    "invD_addFacility", "invD_addSwitch", "addFacility_shape", "addSwitch_shape")]
+    "invD_addFacility", "invD_addSwitch", "addFacility_shape", "addSwitch_shape", "namesCore_attach", "namesCore_grow_cp_link",
+    "namesCore_pushNode", "kids_sub_childrenOf", "sibling_free", "invSN_addComponent", "invSN_addFacility", "invSN_connect",
+    "invSN_addService", "invSN_nodeAddService", "svcLoop_okP", "svcNew_ok_invP", "connect_grow_spec")]
 TRUSTED_BASE = [
     "Model/Topo.lean (hand-mirrored topology API, see C09) - checked differentially call by call, including the four name views",
     "Topo.Inv (Proofs/Lemmas/TopoInv.lean) is the reading of the statement's conjuncts on the model state; edges are read container-first "
@@ -43,10 +46,13 @@ ASSUMPTIONS = [
     "decidable guard CoveredD (argument types from the API enums, handles refer to elements of their class, fresh uuids, no ServicePort "
     "handed to add_link/connect); (2) InvS (EXACTLY one owner / parent / peer) is proved for every history of the creating and property "
     "calls under CoveredS (additionally: add_interface not used to create a ServicePort; a service constructor or composite that raises "
-    "after its rollback ran left the model unchanged - C09 proves that for at most one interface); (3) the full Inv with the six name "
-    "scopes only for add_node, set/unset property",
+    "after its rollback ran left the model unchanged - C09 proves that for at most one interface); (3) InvS together with four of the six name scopes (nodes, components of a node, "
+    "services of a node/component, top-level services: NamesCore) for every history of the creating calls except rename (CoveredN = CoveredS "
+    "minus rename; the sibling-name guards of the code are read through "
+    "kids_sub_childrenOf / sibling_free); (4) the full Inv with all six name scopes only for add_node, set/unset property",
     "NOT proved (oracle + correspondence only): 'exactly one' after removing calls / disconnect / remove_interface (C08's subject); the "
-    "name scopes for the other calls (several are broken by the code: known findings with _counterexample theorems)",
+    "Link and interface-of-a-service name scopes (broken by the code: known findings with _counterexample theorems); every name scope "
+    "under rename (known finding); the name scopes under removals",
     "building calls not in the model: peer/unpeer, add_child_interface/remove_child_interface, add_port_mirror_service, prune",
 ]
 RULE = ("call histories over both flavours (caller-supplied and generated ids), mostly valid calls with 15% rejected ones; after every call "
@@ -328,6 +334,10 @@ def deterministic_cases():
         {"op": "ns_add_interface", "svc": "h10", "name": "ii", "itype": "TrunkPort", "kw": []},   # h12
         {"op": "ns_add_interface", "svc": "h11", "name": "ii", "itype": "TrunkPort", "kw": []},   # h13
         {"op": "add_service", "name": "s1", "nstype": "L2Bridge", "ifs": ["h12", "h13"], "kw": []}]))
+    out.append(("node-named-like-facility", "exp", base + [
+        {"op": "add_facility", "name": "fx", "site": "RENC", "kw": []},
+        {"op": "add_node", "name": "fx", "site": "RENC", "ntype": "VM", "kw": []},
+        {"op": "add_facility", "name": "n1", "site": "RENC", "kw": []}]))
     out.append(("multisite-type", "exp", base + [{"op": "add_service", "name": "ms", "nstype": "L2Multisite", "ifs": ["h3", "h6"], "kw": []}]))
     out.append(("all-ops", "sub", c09.base_ops("sub") + [
         {"op": "add_switch", "name": "sw1", "nid": "swid", "site": "RENC", "nports": 2},
@@ -351,14 +361,14 @@ def correspondence(ctx, res):
     hs = []
     for name, fl, ops in corpus_cases() + deterministic_cases():
         hs.append(c09.run_history(fl, scripted(ops)))
-    n = ctx.scale(24, 160)
+    n = ctx.scale(24, 110)
     for i in range(n):
         fl = "exp" if i % 4 else "sub"
         hs.append(c09.random_history(ctx, "c07corr/%d" % i, fl, ctx.scale(25, 40), 0.15))
     c09.compare_with_model(hs, res)
     # the views as pure functions of the state, and the verdict of every conjunct of Topo.Inv on every state of the run:
     # the model's (Lean predicate on the model state) against the oracle's (published rules on the implementation's graph)
-    hsel = hs[: ctx.scale(45, 200)]
+    hsel = hs[: ctx.scale(45, 150)]
     for lo in range(0, len(hsel), 60):
         lines, want = [], []
         for h in hsel[lo:lo + 60]:
@@ -386,7 +396,7 @@ def correspondence(ctx, res):
             if w[0] == "covered":
                 # the guards of the history theorems, evaluated by the driver in the state before the call
                 pending = (w[1], j[1])
-                for k in ("coveredS", "coveredD"):
+                for k in ("coveredS", "coveredD", "coveredN"):
                     res.count("%s:%s:%s" % (k, "yes" if j[1][k] else "no", w[1]))
                 continue
             if w[0] == "views":
@@ -402,7 +412,7 @@ def correspondence(ctx, res):
                 if pending is not None:
                     # an instance of inv_op / invD_op on the executable model: guard and invariant before => invariant after
                     opk, pre = pending
-                    for cov, inv in (("coveredS", "invS"), ("coveredD", "invD")):
+                    for cov, inv in (("coveredS", "invS"), ("coveredD", "invD"), ("coveredN", "invSN")):
                         if pre[cov] and pre[inv]:
                             res.count("theorem-instance:" + inv)
                             if not j[1][inv]:
@@ -422,17 +432,115 @@ def correspondence(ctx, res):
             res.nontrivial.add(core.sha(canon([s["op"]["op"] for s in h])))
 
 
+# --------------------------------------------------------------------------
+# sub-interfaces (add_child_interface / remove_child_interface are not in the Lean model): oracle only, directly on the API
+
+def child_history(rng, nsteps, record):
+    """Build a small slice whose dedicated ports carry sub-interfaces, connect some of them, then remove carriers.
+    `record(call, topo)` is called after every building call.  Every choice comes from `rng`; returns the list of calls."""
+    import fim.user as f
+    topo = T.new_topology("exp")
+    calls = []
+
+    def did(call):
+        calls.append(call)
+        record(list(calls), topo)
+    try:
+        with T.det_uuids():
+            nodes, carriers, kids = [], [], []
+            for k in range(2):
+                n = topo.add_node(name="n%d" % k, site=rng.choice(T.SITES))
+                nodes.append(n)
+                did(["add_node", n.name])
+                c = n.add_component(name="nic%d" % k, model_type=rng.choice(
+                    [f.ComponentModelType.SmartNIC_ConnectX_6, f.ComponentModelType.SmartNIC_ConnectX_5, f.ComponentModelType.FPGA_Xilinx_U280]))
+                carriers.append(("comp", n, c))
+                did(["add_component", n.name, c.name])
+            sw = topo.add_switch(name="sw", site="RENC", nports=2)
+            carriers.append(("switch", None, sw))
+            did(["add_switch", "sw"])
+            vlan = [100]
+            for _ in range(nsteps):
+                k = rng.choice(["child", "child", "child", "connect", "rm_child", "rm_carrier", "rm_service"])
+                try:
+                    if k == "child" and carriers:
+                        kind, n, c = rng.choice(carriers)
+                        port = rng.choice(list(c.interface_list))
+                        vlan[0] += 1
+                        name = "sub%d" % vlan[0]
+                        ch = port.add_child_interface(name=name, labels=f.Labels(vlan=str(vlan[0])))
+                        kids.append((port, ch))
+                        did(["add_child_interface", c.name, port.name, name])
+                    elif k == "connect" and kids:
+                        port, ch = rng.choice(kids)
+                        sname = "s%d" % len(calls)
+                        topo.add_network_service(name=sname, nstype=f.ServiceType.L2Bridge, interfaces=[ch])
+                        did(["add_network_service", sname, ch.name])
+                    elif k == "rm_child" and kids:
+                        port, ch = kids.pop(rng.randrange(len(kids)))
+                        port.remove_child_interface(name=ch.name)
+                        did(["remove_child_interface", port.name, ch.name])
+                    elif k == "rm_carrier" and carriers:
+                        kind, n, c = carriers.pop(rng.randrange(len(carriers)))
+                        if kind == "switch":
+                            topo.remove_switch(name=c.name)
+                            did(["remove_switch", c.name])
+                        elif rng.random() < 0.5:
+                            n.remove_component(name=c.name)
+                            did(["remove_component", n.name, c.name])
+                        else:
+                            topo.remove_node(name=n.name)
+                            carriers[:] = [x for x in carriers if x[1] is not n]
+                            did(["remove_node", n.name])
+                        alive = set()
+                        for _, _, cc in carriers:
+                            alive.update(i.node_id for i in cc.interface_list)
+                        kids[:] = [(p, x) for p, x in kids if p.node_id in alive]
+                    elif k == "rm_service" and topo.network_services:
+                        cand = [x for x in topo.network_services if x.startswith("s") and not x.startswith("sw")]
+                        if cand:
+                            sname = rng.choice(sorted(cand))
+                            topo.remove_network_service(name=sname)
+                            did(["remove_network_service", sname])
+                except Exception as e:       # a rejected call: the model must still satisfy the rules
+                    did(["rejected:" + k, core.err_kind(e)])
+    finally:
+        T.drop_topology(topo)
+    return calls
+
+
+def oracle_children(ctx, res, n):
+    for i in range(n):
+        rng = ctx.sub_rng("c07children/%d" % i)
+        seen = set()
+
+        def record(calls, topo, i=i):
+            res.evaluations += 1
+            res.count("child-op:" + calls[-1][0])
+            snap = T.snapshot(topo)
+            for rule, cls, detail in check_rules(snap):
+                if (rule, cls) in seen:
+                    continue
+                seen.add((rule, cls))
+                res.violation("C07:%s:%s:%s" % (rule, cls, calls[-1][0]), "after %s the model breaks rule '%s' (%s)" % (calls[-1][0], rule, cls),
+                              {"children": True, "stream": i, "calls": calls}, observed=detail)
+            if any(n[3] == "SubInterface" for n in snap["nodes"]):
+                res.nontrivial.add("children:" + core.sha(canon([c[0] for c in calls])))
+        child_history(rng, ctx.scale(8, 14), record)
+
+
 def oracle(ctx, res, budget=None):
     for name, fl, ops in corpus_cases():
         run_and_check(fl, ops, res, "corpus:" + name, views_every=1)
     for name, fl, ops in deterministic_cases():
         run_and_check(fl, ops, res, name, views_every=1)
-    n = budget or ctx.scale(30, 300)
+    n = budget or ctx.scale(30, 200)
     for i in range(n):
         fl = "exp" if i % 4 else "sub"
         rng = ctx.sub_rng("c07oracle/%d" % i)
         names = T.Names(rng)
         run_and_check(fl, lambda sess: T.gen_op(rng, sess, names, 0.15), res, "random", nmax=ctx.scale(25, 40))
+    oracle_children(ctx, res, ctx.scale(12, 80) if budget is None else budget // 4)
     res.sample({"oracle": "rules of graph_validation_rules.json (minus the two slice cardinality rules) + containment + name scopes on the "
                           "extracted graph after every call; views vs class listings; mutation through views"})
 
@@ -444,6 +552,12 @@ def search(ctx, res, broken):
 def replay(ctx, payload):
     c = payload["case"]
     r = core.Result()
+    if c.get("children"):
+        oracle_children(ctx, r, c["stream"] + 1)
+        hit = [v for v in r.violations if v["signature"] == payload.get("signature")]
+        for v in hit:
+            print("  ", v["signature"], v["what"], json.dumps(v.get("observed"))[:600])
+        return bool(hit)
     run_and_check(c["flavour"], c["ops"], r, "replay", views_every=1)
     hit = [v for v in r.violations if v["signature"] == payload.get("signature")] or r.violations
     for v in hit:
